@@ -14,7 +14,13 @@ VARIABLE l
 vars == <<l>>
 
 PointOk(r, k) == LET e == Side(r.term, F3(r.pts[k])) IN e \in {0, Undef} \/ r.sign[k] = e
+(* transforms and planes in general position (float parameters, arbitrary axes incl. directions within a few       *)
+(* milliradians of a coordinate axis, points up to 1000 units away): the recorder evaluates the transformed shape at p *)
+(* and the untransformed one at T^-1 p (the documented action, computed in f64); want = 0 marks a point within the     *)
+(* rounding band of either surface (judged)                                                                            *)
+LawOk(r) == Len(r.sign) = Len(r.want) /\ \A k \in 1..Len(r.want) : r.want[k] = 0 \/ r.sign[k] = r.want[k]
 Fails(r) == IF r.panic # "" THEN {"crash"}
+            ELSE IF r.ev = "law" THEN (IF LawOk(r) THEN {} ELSE {"law-" \o r.kind})
             ELSE IF Len(r.sign) = Len(r.pts) /\ \A k \in 1..Len(r.pts) : PointOk(r, k) THEN {} ELSE {"geometry-" \o r.term[1]}
 
 Init == l = 1
